@@ -174,8 +174,14 @@ def run(ctx: Ctx, rs: RuleSet, tier: str):
           sid.func.id == 'next' and len(sid.args) == 1 and
           unparse(sid.args[0]) == counter)
     loc_arg = kwarg(call, 'location')
-    ok_loc = loc_arg is not None and isinstance(loc_arg, ast.Call) and unparse(
-        loc_arg.func) == '_location_provider'
+    # the provider: the module global, or the attribute of the thread-local
+    # state object
+    tls_objs = {g.qual.rsplit('.', 1)[-1]
+                for g in common.thread_local_guards(ctx)
+                if g.qual.startswith(H + '.')}
+    lf = unparse(loc_arg.func) if isinstance(loc_arg, ast.Call) else ''
+    ok_loc = lf == '_location_provider' or (
+        lf.endswith('.location_provider') and lf.rsplit('.', 1)[0] in tls_objs)
     rs.check(ok and ok_loc, rule, f'{q}:HistoryEntry',
              f'sequence_id={unparse(sid) if sid is not None else None}, '
              f'location={unparse(loc_arg) if loc_arg is not None else None}',
@@ -265,8 +271,13 @@ def run(ctx: Ctx, rs: RuleSet, tier: str):
   tg = guards[0]
   common.classify_guard_functions(ctx, tg)
   writers = common.pair_rule(ctx, rs, rule, tg)
-  lp = common.Guard('global', f'{H}._location_provider', None,
-                    hmod.assigns.get('_location_provider'))
+  lp_tls = [g for g in common.thread_local_guards(ctx)
+            if g.qual.startswith(H + '.') and g.attr == 'location_provider']
+  if lp_tls:
+    lp = lp_tls[0]
+  else:
+    lp = common.Guard('global', f'{H}._location_provider', None,
+                      hmod.assigns.get('_location_provider'))
   common.classify_guard_functions(ctx, lp)
   writers2 = common.pair_rule(ctx, rs, rule, lp)
   rs.check(set(writers) == {f'{H}.suspend_tracking'}, 'WMC.guard-writers',
